@@ -223,6 +223,12 @@ func (sw *SlidingWindow) Add(data any) {
 			close(sw.initChan)
 		}
 		sw.initialized = true
+	} else if timeChar == types.EventTime && sw.currentSlot != nil && eventTime.Before(*sw.currentSlot.Start) &&
+		(sw.watermark == nil || !sw.watermark.IsEventTimeLate(eventTime)) {
+		// An on-time event older than the current slot can only occur while the
+		// first slot has not advanced yet (afterwards slot.Start < watermark).
+		// Re-align the slot to it so that the windows covering it are not skipped.
+		sw.currentSlot = sw.createSlotFromStart(alignWindowStart(eventTime, sw.slide))
 	}
 	row := types.Row{
 		Data:      data,
